@@ -46,12 +46,14 @@ PLANS = {
     },
     "C02": {
         "quick": [ex("repT", "repT", 1, 3, alphabet=["a", ","], modes=["E"]), ex("rep2", "rep", 2, 3, alphabet=["a", "b", ","]), rec("repR", "rep", 2500, 7, 9)],
-        "thorough": [ex("repT", "repT", 1, 5, alphabet=["a", "b", ","]), ex("rep3", "rep", 3, 3, alphabet=["a", ","]), rec("repR", "rep", 30000, 9, 12)],
+        "thorough": [ex("repT", "repT", 1, 4, alphabet=["a", ","]), ex("repT5", "repT", 1, 5, alphabet=["a", ","], modes=["E"], timeout=3000),
+                     ex("repTb", "repT", 1, 3, alphabet=["a", "b", ","], modes=["E"], timeout=3000), ex("rep3", "rep", 3, 3, alphabet=["a", ","], timeout=3000),
+                     rec("repR", "rep", 30000, 9, 12)],
     },
     "C03": {
         "quick": [ex("peg2", "peg", 2, 3), ex("repT", "repT", 1, 3, alphabet=["a", ","], modes=["E"]), ex("err2", "err", 2, 3, etys=ALL_ETYS),
                   ex("rcv2", "rcv", 2, 3), rec("pegR", "peg", 1000, 8, 8, etys=ALL_ETYS), rec("lblR", "lbl", 1000, 8, 8, etys=ALL_ETYS)],
-        "thorough": [ex("peg3", "peg", 3, 3), ex("repT", "repT", 1, 5, alphabet=["a", "b", ","]), ex("err3", "err", 3, 3, etys=ALL_ETYS),
+        "thorough": [ex("peg3", "peg", 3, 3), ex("repT", "repT", 1, 4, alphabet=["a", ","], timeout=3000), ex("err3", "err", 3, 3, etys=ALL_ETYS),
                      ex("rcv3", "rcv", 3, 3), rec("pegR", "peg", 20000, 10, 10, etys=ALL_ETYS), rec("lblR", "lbl", 20000, 10, 10, etys=ALL_ETYS)],
     },
     "C04": {
@@ -93,7 +95,8 @@ PLANS = {
         "quick": [ex("pratt", "pratt", 1, 4, alphabet=["a", "+", "*", "-", "!", "^"], modes=["E"], invariants=DEFAULT_INVARIANTS + ["PrattFlatten"]),
                   ex("prattP5", "prattP", 1, 5, alphabet=["a", "+", "*", "-"], modes=["E"], invariants=DEFAULT_INVARIANTS + ["PrattFlatten"]),
                   rec("prattR", "pratt", 2500, 6, 9)],
-        "thorough": [ex("pratt", "pratt", 1, 5, alphabet=["a", "+", "*", "-", "!", "^"], invariants=DEFAULT_INVARIANTS + ["PrattFlatten"]),
+        "thorough": [ex("pratt", "pratt", 1, 5, alphabet=["a", "+", "*", "-", "!", "^"], modes=["E"], timeout=4000, invariants=DEFAULT_INVARIANTS + ["PrattFlatten"]),
+                     ex("prattC", "pratt", 1, 4, alphabet=["a", "+", "*", "-", "!", "^"], modes=["C"], timeout=3000, invariants=DEFAULT_INVARIANTS + ["PrattFlatten"]),
                      ex("prattP6", "prattP", 1, 6, alphabet=["a", "+", "*", "-"], invariants=DEFAULT_INVARIANTS + ["PrattFlatten"]),
                      rec("prattR", "pratt", 40000, 6, 12)],
     },
